@@ -213,6 +213,16 @@ theorem pypi_upper_rejected :
       ¬ Pep.NoEarlyUpper [49, 48, 82, 67, 46, 48] := by
   refine ⟨by decide +kernel, by decide +kernel, by decide⟩
 
+/-- Hypothesis clause of the acceptance oracle: no `v` in front of an epoch. -/
+@[reducible] def Pep.NoVEpoch (s : Bytes) : Prop := Pep.vEpoch s = false
+
+/-- `v1!2.0` (packaging: `1!2.0`, the `v` comes before the epoch in PEP 440) is rejected; the
+library strips a `v` only after the epoch (F-C02-pypi-v-epoch). -/
+theorem pypi_v_epoch_rejected :
+    parse .pypi [118, 49, 33, 50, 46, 48] = .err ∧ (parse .pypi [49, 33, 50, 46, 48]).isOk = true ∧
+      ¬ Pep.NoVEpoch [118, 49, 33, 50, 46, 48] := by
+  refine ⟨by decide +kernel, by decide +kernel, by decide⟩
+
 /-! ## Maven (no positive theorem) -/
 
 @[reducible] def MavenWF (a : MavenCV.Ast) : Prop := a.valid = true ∧ Maven.inLib a = true
